@@ -239,6 +239,34 @@ def check_assoc(ctx, F, impls):
     return n
 
 
+def collect_impls(F):
+    impls = []
+    for r in F.impls():
+        if r.get("trait") == TRAIT:
+            assoc = {it[1]: it[3] for it in r["items"] if it[0] == "type"}
+            impls.append((r, assoc))
+    by_self = {r["self_ty"]: a for r, a in impls}
+    proj = re.compile(r"^<(.+) as " + re.escape(TRAIT) + r">::(Version\d)$")
+    for r, assoc in impls:
+        for k in list(assoc):
+            for _ in range(8):
+                m = proj.match(assoc[k])
+                if not m or m.group(1) not in by_self:
+                    break
+                assoc[k] = by_self[m.group(1)][m.group(2)]
+    return impls
+
+
+def check_protocol_routing(ctx):
+    """shared with C01 and C04: the protocol-parameterised readers / writers hand protocol version K to version K's own codec
+    (coll.dispatch + coll.assoc), so that what C01 / C04 decide per version-specific codec also holds on this public path"""
+    F = facts("wow_login_messages")
+    d = check_dispatch(ctx, F)
+    ctx.rule("coll.dispatch", d, floor=12, note="protocol-parameterised default methods (3 flavours x read/write) and expect_*_message_protocol helpers")
+    a = check_assoc(ctx, F, collect_impls(F))
+    ctx.rule("coll.assoc", a, floor=75, note="normalised VersionK associated types vs the payload types of version K's opcode enums")
+
+
 def run(ctx):
     F = facts("wow_login_messages")
     pv = F.adt(PV)
